@@ -53,7 +53,7 @@ class Stream(ModelMixin["Stream"], Base):
     media_files: Mapped[list[MediaFile]] = relationship('MediaFile', cascade="all, delete")
     # the Periods of multi-period streams that play this stream
     periods: Mapped[list["Period"]] = relationship(  # noqa: F821
-        'Period', back_populates='stream', cascade="all, delete")
+        'Period', back_populates='stream')
     timing_ref: Mapped[JsonObject | None] = mapped_column(
         'timing_reference',
         sqlalchemy_jsonfield.JSONField(
